@@ -13,6 +13,7 @@ from vlib.harness import V, derive_seed, run_shards
 from vlib.lib import call
 
 PROPERTY = 'C06'
+AMBIENT_PASS = True        # the same search once more under unusual ambient settings (vlib.run.AMBIENT_SETTINGS)
 RULE = ('(a) round_up_str_num: ALL strings [integer part: every string of 0-4 digits over {0,1,9}, incl. empty and leading '
         'zeros][.][0-5 fraction digits over {0,1,4,5,9}] x prec 0..5, plus 6-7 fraction digits sampled and no-point strings; '
         'oracle = exact ceiling in Fraction of the first 5 fraction digits; (b) format_seconds_as_time: durations on the '
@@ -23,6 +24,7 @@ RULE = ('(a) round_up_str_num: ALL strings [integer part: every string of 0-4 di
         'either separator (exact sexagesimal value, ints stay int) and arbitrary text (number or ValueError only); '
         'non-trivial = (a) a carry into the integer part or an empty/zero-led integer part, (b) a duration within 10^-prec of '
         'a minute/hour boundary or with a residue below 1e-4, (c) a text with >= 2 fields; distinct inputs')
+RULE = RULE + '; parse_hms floats to 8 ulp with fractions of up to 15 digits; round_up_str_num also with integer parts of 20-45 digits and under a lowered decimal context'
 ASSUMPTIONS = ['"noise beyond the fifth decimal" is given the stated tolerance 1e-5 on the lower bound of (b)',
                'float results of parse_hms are compared with the exact sexagesimal sum to 8 units in the last place']
 RULE = RULE + '; also fields dressed the way int() tolerates, fields beyond 2**53 and of hundreds of digits, number carriers of parse_hms, int durations at every precision and left-out precisions'
